@@ -40,6 +40,24 @@ impl AmlSink for Recorder {
     }
 }
 
+/// sinks that override only some of the entry points (the rest fall back to the trait's defaults)
+pub struct ByteVec(pub Vec<u8>);
+impl AmlSink for ByteVec {
+    fn byte(&mut self, b: u8) { self.0.push(b); }
+    fn vec(&mut self, v: &[u8]) { self.0.extend_from_slice(v); }
+}
+pub struct ByteWordDword(pub Vec<u8>);
+impl AmlSink for ByteWordDword {
+    fn byte(&mut self, b: u8) { self.0.push(b); }
+    fn word(&mut self, w: u16) { self.0.extend_from_slice(&w.to_le_bytes()); }
+    fn dword(&mut self, d: u32) { self.0.extend_from_slice(&d.to_le_bytes()); }
+}
+pub struct ByteQword(pub Vec<u8>);
+impl AmlSink for ByteQword {
+    fn byte(&mut self, b: u8) { self.0.push(b); }
+    fn qword(&mut self, q: u64) { self.0.extend_from_slice(&q.to_le_bytes()); }
+}
+
 /// "ok" or the first sink that saw something else than the `Vec<u8>` sink
 pub fn all_sinks(a: &dyn Aml) -> String {
     let mut v: Vec<u8> = Vec::new();
@@ -53,6 +71,27 @@ pub fn all_sinks(a: &dyn Aml) -> String {
     a.to_aml_bytes(&mut b);
     if b.0 != v {
         return "DIFF:byte-only".into();
+    }
+    let mut p1 = ByteVec(Vec::new());
+    a.to_aml_bytes(&mut p1);
+    if p1.0 != v {
+        return "DIFF:byte+vec".into();
+    }
+    let mut p2 = ByteWordDword(Vec::new());
+    a.to_aml_bytes(&mut p2);
+    if p2.0 != v {
+        return "DIFF:byte+word+dword".into();
+    }
+    let mut p3 = ByteQword(Vec::new());
+    a.to_aml_bytes(&mut p3);
+    if p3.0 != v {
+        return "DIFF:byte+qword".into();
+    }
+    // a sink that already holds bytes: only the appended part may depend on the object
+    let mut pre: Vec<u8> = vec![0x5a, 0x00, 0xff, 0x79];
+    a.to_aml_bytes(&mut pre);
+    if pre[..4] != [0x5a, 0x00, 0xff, 0x79] || pre[4..] != v[..] {
+        return "DIFF:non-empty-sink".into();
     }
     let mut r = Recorder::default();
     a.to_aml_bytes(&mut r);
